@@ -132,6 +132,24 @@ def main(ck):
             ck.note_case((kind, lo, la, tb, spec))
             hist[kind] = hist.get(kind, 0) + 1
             eval_pair(ck, g, h, kind, results, lines)
+        # history: equality must not depend on which derived quantities either operand has materialised
+        for hname, hvars in (("n_edge", ["n_edge"]), ("edges+faces", ["face_edge_connectivity", "node_face_connectivity", "face_areas"]),
+                            ("centres", ["face_lon", "edge_x", "node_z"])):
+            g2 = mk_grid(lon, lat, table)
+            h2 = mk_grid(lon, lat, table)
+            try:
+                for a in hvars:
+                    getattr(g2, a)
+            except Exception as ex:
+                ck.fail("raises", {"kind": "history_" + hname}, {"kind": "history"}, detail=repr(ex))
+                continue
+            ck.note_case(("history", hname, lon, lat, table))
+            hist["history_" + hname] = hist.get("history_" + hname, 0) + 1
+            eval_pair(ck, g2, h2, "identical_after_" + hname, results, lines)
+            # and a one-entry difference must still be seen after a history
+            l3 = list(lon); l3[0] = lon[0] + 0.5 if lon[0] < 179 else lon[0] - 0.5
+            h3 = mk_grid(l3, lat, table)
+            eval_pair(ck, g2, h3, "lon_after_" + hname, results, lines)
         # reflexive, copy, non-Grid
         ck.note_case(("refl", lon, lat, table))
         eval_pair(ck, g, g, "reflexive", results, lines)
@@ -153,6 +171,13 @@ def main(ck):
             ck.cov["evaluations"] += 1
             if r1 is not False or r2 is not True:
                 ck.fail("nongrid", {"kind": "nongrid", "other": repr(type(other))}, {"kind": "nongrid"}, detail=repr((r1, r2)))
+            if other is None or isinstance(other, (int, str, list)):   # operands whose own == defers to Grid
+                try:
+                    r3, r4 = (other == g), (other != g)          # reflected operators
+                    if r3 is not False or r4 is not True:
+                        ck.fail("nongrid", {"kind": "nongrid_reflected", "other": repr(type(other))}, {"kind": "nongrid"}, detail=repr((r3, r4)))
+                except Exception as ex:
+                    ck.fail("nongrid", {"kind": "nongrid_reflected", "other": repr(type(other))}, {"kind": "nongrid"}, detail=repr(ex))
         if mi < 2:
             ck.sample({"mesh": m.name, "kinds": sorted(hist)[:20], "n_node": len(lon), "n_face": len(table)})
     # correspondence: the model on the same data
